@@ -242,7 +242,7 @@ fn reject_after_valid() {
     finish(ctx);
 }
 
-// @verif property=C12,C06,C01 tier=quick timeout=1200 mem=16 bounds="valid line '10,$b', then the always-rejected line '20,x,...' at another time: pending group and lists untouched" covers=4
+// @verif property=C12,C06,C01 tier=quick timeout=1500 mem=28 bounds="valid line '10,$b', then the always-rejected line '20,x,...' at another time: pending group and lists untouched" covers=4
 oracle_proof!(c12_reject_after_valid, 32, reject_after_valid());
 
 // ---- two lines, same time (one group) ----
